@@ -18,6 +18,14 @@ impl<A: WindowAccumulator> EventTimeWindowManager<A> {
     fn alloc_windows(&mut self, ts: Timestamp) {
         assert!(self.last_watermark.map(|w| ts >= w).unwrap_or(true));
 
+        // An element that is not late may still be earlier than the oldest open window
+        // (out-of-order arrival): allocate backwards too, otherwise it is silently dropped.
+        while self.ws.front().map(|f| f.start > ts).unwrap_or(false) {
+            let start = self.ws.front().unwrap().start - self.slide;
+            self.ws
+                .push_front(Slot::new(self.init.clone(), start, start + self.size));
+        }
+
         while self.ws.back().map(|b| b.start < ts).unwrap_or(true) {
             let mut next_start = self.ws.back().map(|b| b.start + self.slide).unwrap_or(ts);
             // Skip empty windows
